@@ -164,41 +164,41 @@ func TestGovcStandinDiff(t *testing.T) {
 	r := res{Lists: len(lists) + len(lists2)}
 	seen := map[string]bool{}
 	for pass, lists := range [][][]dsEntry{lists, lists2} {
-	_ = pass
-	for i, a := range lists {
-		for j, b := range lists {
-			// quick: a seeded 1/16 slice of the pairs; thorough: all
-			if !thorough && (i*31+j*17+seed)%16 != 0 {
-				continue
-			}
-			for _, differ := range []DiffType{DiffMetadata, DiffNone} {
-				r.Evaluations++
-				var got []string
-				err := doubleWalkDiff(context.Background(), func(k ChangeKind, p string, fi os.FileInfo, err error) error {
-					got = append(got, k.String()+" "+p)
-					return nil
-				}, dsWalker(a), dsWalker(b), nil, differ)
-				if err != nil {
-					t.Fatal(err)
+		_ = pass
+		for i, a := range lists {
+			for j, b := range lists {
+				// quick: a seeded 1/16 slice of the pairs; thorough: all
+				if !thorough && (i*31+j*17+seed)%16 != 0 {
+					continue
 				}
-				want := dsSpec(a, b, differ)
-				gk, wk := strings.Join(got, ","), strings.Join(want, ",")
-				if gk != "" && !seen[gk] {
-					seen[gk] = true
-					r.Distinct++
-				}
-				if gk != wk {
-					r.Disagreements++
-					if len(r.Failures) < 10 {
-						r.Failures = append(r.Failures, fmt.Sprintf("A=%v B=%v differ=%d: got [%s] want [%s]", a, b, differ, gk, wk))
+				for _, differ := range []DiffType{DiffMetadata, DiffNone} {
+					r.Evaluations++
+					var got []string
+					err := doubleWalkDiff(context.Background(), func(k ChangeKind, p string, fi os.FileInfo, err error) error {
+						got = append(got, k.String()+" "+p)
+						return nil
+					}, dsWalker(a), dsWalker(b), nil, differ)
+					if err != nil {
+						t.Fatal(err)
 					}
-				}
-				if len(r.Samples) < 5 && r.Evaluations%9973 == 1 {
-					r.Samples = append(r.Samples, fmt.Sprintf("A=%v B=%v -> [%s]", a, b, gk))
+					want := dsSpec(a, b, differ)
+					gk, wk := strings.Join(got, ","), strings.Join(want, ",")
+					if gk != "" && !seen[gk] {
+						seen[gk] = true
+						r.Distinct++
+					}
+					if gk != wk {
+						r.Disagreements++
+						if len(r.Failures) < 10 {
+							r.Failures = append(r.Failures, fmt.Sprintf("A=%v B=%v differ=%d: got [%s] want [%s]", a, b, differ, gk, wk))
+						}
+					}
+					if len(r.Samples) < 5 && r.Evaluations%9973 == 1 {
+						r.Samples = append(r.Samples, fmt.Sprintf("A=%v B=%v -> [%s]", a, b, gk))
+					}
 				}
 			}
 		}
-	}
 	}
 	if out != "" {
 		b, _ := json.MarshalIndent(r, "", " ")
